@@ -381,12 +381,48 @@ def check_writers(idx, run):
     run.floor("GOcean bound writers", seen, 8)
 
 
+def check_boundary_move(idx, run):
+    """C25.R5: GOMoveIterationBoundariesInsideKernelTrans widens the loops
+    around a kernel to the whole field and masks *that* kernel.  Every other
+    kernel in the same loops would run outside its region, so the
+    transformation must refuse loops that hold more than one kernel (or mask
+    them all)."""
+    cls = idx.get_class("GOMoveIterationBoundariesInsideKernelTrans")
+    val = cls.methods.get("validate")
+    app = cls.methods.get("apply")
+    if not (val and app):
+        raise AnalysisError("GOMoveIterationBoundariesInsideKernelTrans: "
+                            "validate/apply not found")
+    atxt = " ".join(ast.unparse(app).split())
+    widens = "iteration_space = 'go_all_pts'" in atxt
+    guard = False
+    for st in ast.walk(val):
+        if isinstance(st, ast.If) and "walk(GOKern)" in ast.unparse(st.test) \
+                and "len(" in ast.unparse(st.test) and any(
+                    isinstance(b, ast.Raise) for b in ast.walk(st)):
+            guard = True
+    masks_all = "for kern in" in atxt and "walk(GOKern)" in atxt
+    run.check("C25.R5", (not widens) or guard or masks_all,
+              "GOMoveIterationBoundariesInsideKernelTrans.validate",
+              "loops shared with other kernels are refused",
+              "the loops around the kernel are widened to all points but "
+              "only the kernel the transformation was applied to is masked: "
+              "after fusing two loops, the second kernel is called for every "
+              "point of the field", loc(cls.module, val))
+    dom_ok = "self.validate(node, options)" in atxt
+    run.check("C25.R5", dom_ok,
+              "GOMoveIterationBoundariesInsideKernelTrans.apply",
+              "apply validates first", "apply no longer validates",
+              loc(cls.module, app))
+
+
 def check(idx, run):
     run.explanation = __doc__
     check_envelope(idx, run)
     check_user_spaces(idx, run)
     check_bound_names(idx, run)
     check_writers(idx, run)
+    check_boundary_move(idx, run)
     run.exhaustive = True
     run.assumptions = ["dl_esm_inf defines internal/whole regions as the "
                        "configuration names them"]
